@@ -37,7 +37,7 @@ def proc_item(scratch, size, mode, code, eintr=None):
 
 
 def describe(d):
-    keys = ["what", "kind", "writers", "reader", "nreaders", "close", "size", "mode", "code", "signal", "share", "eintr"]
+    keys = ["what", "kind", "writers", "reader", "nreaders", "close", "size", "mode", "code", "signal", "share", "n", "eintr"]
     return " ".join("%s=%s" % (k, jdn(d[Kw(k)])) for k in keys if Kw(k) in d and d[Kw(k)] is not None)
 
 
@@ -59,6 +59,10 @@ def shape_sig(d):
         return "duplex:%s" % cls(d[Kw("size")])
     if d[Kw("what")] == "shared":
         return "shared-redirect:%s" % d[Kw("share")]
+    if d[Kw("what")] == "close-both":
+        return "close-with-pending:%s%s" % ("reader" if d[Kw("reader")] else "", "+writer" if d[Kw("writer")] else "")
+    if d[Kw("what")] == "accept-burst":
+        return "accept-burst:n%d" % d[Kw("n")]
     return "signal:%s" % d[Kw("signal")]
 
 
@@ -79,6 +83,17 @@ def judge_extra(d, r):
             probs.append(("operation-failed", "writer=%r reader=%r server=%r" % (wres, rres, sres)))
         elif total != size or bad is not None or reply != "done:%d" % size:
             probs.append(("bytes-lost-or-reordered", "sent %d, server received %r (first bad %r), reply %r" % (size, total, bad, reply)))
+    if what == "close-both":
+        st_, before, rres, wres = r
+        if st_ != "finished":
+            probs.append(("operation-left-suspended", "stream closed while a reader%s parked on it: %r; reader %r, writer %r "
+                          "(before the close: %r)" % (" and a writer were" if d[Kw("writer")] and d[Kw("reader")] else
+                                                      (" was" if d[Kw("reader")] else "... a writer was"), st_, rres, wres, before)))
+    if what == "accept-burst":
+        st_, n, served, wrong = r
+        if st_ != "finished" or served != n or wrong:
+            probs.append(("connections-not-served", "%d clients connected in one loop turn: %r, server handled %d, wrong or "
+                          "missing replies %r" % (n, st_, served, wrong[:6])))
     if what == "shared":
         st_, code, out = r
         want = SHARED_EXPECT[str(d[Kw("share")])]
@@ -195,7 +210,7 @@ def run_items(chk, part, ds, variant="fast", chunk=8):
                     probs.append(("chunk-size", "ev/chunk %d returned %d bytes" % (d[Kw("size")], total)))
                 elif bad is not None:
                     probs.append(("order-violated", "position %r" % (bad,)))
-        if what in ("duplex", "shared"):
+        if what in ("duplex", "shared", "close-both", "accept-burst"):
             probs = judge_extra(d, r)
         if what == "signal":
             # killed by a signal: the wait result must not look like a normal small exit code 0
@@ -213,7 +228,7 @@ def run_items(chk, part, ds, variant="fast", chunk=8):
                     continue
                 r2, _n = canonparse.parse(text2)
                 p2 = judge_stream(d, r2) if what == "stream" else (judge_proc(d, r2) if what == "proc" else [(k, "") for k in kinds])
-                if what in ("duplex", "shared"):
+                if what in ("duplex", "shared", "close-both", "accept-burst"):
                     p2 = judge_extra(d, r2)
                 if what in ("execute", "queued", "signal"):
                     # re-judge with the same rules as above
@@ -296,6 +311,11 @@ def main():
         dx = [{Kw("what"): Kw("duplex"), Kw("scratch"): scratch, Kw("size"): n, Kw("eintr"): None}
               for n in (1, 4096, 65536, 200000, 1 << 20) + (() if quick else (4 << 20,))]
         run_items(chk, "duplex", dx, chunk=2)
+        cb = [{Kw("what"): Kw("close-both"), Kw("scratch"): scratch, Kw("size"): 4 << 20, Kw("reader"): rd, Kw("writer"): wr, Kw("eintr"): None}
+              for rd, wr in ((True, False), (False, True), (True, True))]
+        run_items(chk, "close-with-pending", cb, chunk=1)
+        ab = [{Kw("what"): Kw("accept-burst"), Kw("scratch"): scratch, Kw("n"): n, Kw("eintr"): None} for n in (1, 2, 3, 12, 40)]
+        run_items(chk, "accept-burst", ab, chunk=1)
         sh = [{Kw("what"): Kw("shared"), Kw("scratch"): scratch, Kw("share"): Kw(m), Kw("eintr"): None}
               for m in ("in-out", "in-err", "out-err", "all")]
         run_items(chk, "shared-redirect", sh, chunk=1)
